@@ -277,6 +277,7 @@ type stats struct {
 	fwdFragPkts  int // packets the forwarder sent fragmented (reassembled by the harness)
 	fwdFragMax   int
 	harFragPkts  int // packets the harness sent fragmented
+	aboveFaceMTU int // frames the harness sent that are larger than the receiving face's own MTU
 	reordered    int // flushes whose datagrams were sent out of order
 	exactMTU     int // frames from the forwarder of exactly the MTU of a udp face
 	partialReads int
@@ -361,17 +362,28 @@ func nextHops(c Case, prefix string) map[int]bool {
 }
 
 // framesFor: the link-layer frames the harness sends on face h for pkt (token may be empty).
+// sendMTU: the size up to which the harness, as the peer of face h, sends frames to it.
+func (h *hface) sendMTU() int {
+	if h.spec.PeerMTU > h.mtu {
+		return h.spec.PeerMTU
+	}
+	return h.mtu
+}
+
 func (h *hface) framesFor(pkt []byte, tok []byte, bare bool, st *stats) [][]byte {
 	lp := lpwire.LP{PitToken: tok, Fragment: pkt, HasFragment: true}
 	whole := lp.Encode()
 	if len(tok) == 0 && bare {
 		whole = pkt
 	}
-	if h.stream || len(whole) <= h.mtu {
+	if h.stream || len(whole) <= h.sendMTU() {
+		if !h.stream && len(whole) > h.mtu {
+			st.aboveFaceMTU++
+		}
 		return [][]byte{whole}
 	}
 	st.harFragPkts++
-	return fragmentFrames(pkt, tok, h.mtu, h.spec.Slack, &h.seq)
+	return fragmentFrames(pkt, tok, h.sendMTU(), h.spec.Slack, &h.seq)
 }
 
 // env is a running forwarder with its faces; the harness owns the other end of every socket.
@@ -1128,10 +1140,10 @@ func datagrams(h *hface, pkt []byte, tok []byte, bare bool) int {
 	if len(tok) == 0 && bare {
 		n = len(pkt)
 	}
-	if n <= h.mtu {
+	if n <= h.sendMTU() {
 		return 1
 	}
-	return len(fragmentFrames(pkt, tok, h.mtu, h.spec.Slack, &s))
+	return len(fragmentFrames(pkt, tok, h.sendMTU(), h.spec.Slack, &s))
 }
 
 const udpBudget = 110
